@@ -77,7 +77,8 @@ Inductive out :=
 | OResp (rid len tag : N)               (* RequestResponseEvent::ResponseReceived *)
 | OFail (rid code : N)                  (* RequestResponseEvent::RequestFailed *)
 | OReq (irid peer len tag : N)          (* RequestResponseEvent::RequestReceived *)
-| OWire (chan len tag : N)              (* a whole frame arrived at the remote end of a carrier *)
+| OWire (chan len tag : N)              (* a whole request frame arrived at the remote end of an outbound carrier *)
+| OWireR (chan len tag : N)             (* a whole response frame arrived at the remote end of an inbound carrier *)
 | OFeed (irid : N) (ok : bool)          (* feedback channel of send_response_with_feedback: () / dropped *)
 | OBind (chan rid : N)                  (* ghost (not printed): on_outbound_substream handed carrier
                                            chan to the future of request rid *)
@@ -373,7 +374,7 @@ Definition h_uresp (cf : cfg) (s : pst) (irid len tag : N) (fb : bool) (gate now
            | 0 => (set_rsps s (map (fun x => if s_irid x =? irid
                                              then mkRs irid (s_chan r) (Some (len, tag, now + tmo cf)) fb else x)
                                    (rsps s)), [])
-           | 1 => (set_rsps s (drop_rs irid (rsps s)), OWire (s_chan r) len tag :: feed fb irid true)
+           | 1 => (set_rsps s (drop_rs irid (rsps s)), OWireR (s_chan r) len tag :: feed fb irid true)
            | _ => (set_rsps s (drop_rs irid (rsps s)), feed fb irid false)
            end
     end
@@ -390,7 +391,7 @@ Definition rsp_gate (s : pst) (c : N) (ok : bool) : pst * list out :=
     match s_w r with
     | Some (len, tag, _) =>
       (set_rsps s (drop_rs (s_irid r) (rsps s)),
-       (if ok then [OWire c len tag] else []) ++ feed (s_fb r) (s_irid r) ok)
+       (if ok then [OWireR c len tag] else []) ++ feed (s_fb r) (s_irid r) ok)
     | None => (s, [])
     end
   | None => (s, [])
